@@ -90,6 +90,7 @@ type frame struct {
 	panicking        bool
 	panic            interface{}
 	phitemps         []value
+	phisDone         bool
 }
 
 func (fr *frame) get(key ssa.Value) value {
@@ -250,8 +251,13 @@ func visitInstr(fr *frame, instr ssa.Instruction) continuation {
 		i.store(mustDeref(instr.Addr.Type()), fr.get(instr.Addr), fr.get(instr.Val))
 
 	case *ssa.If:
+		c := fr.get(instr.Cond)
+		if s, ok := c.(sym); ok {
+			fr.symbolicIf(instr, s)
+			return kJump
+		}
 		succ := 1
-		if i.truth(fr.get(instr.Cond), "if@"+i.posStr(instr.Pos(), fr.fn)) {
+		if c.(bool) {
 			succ = 0
 		}
 		fr.prevBlock, fr.block = fr.block, fr.block.Succs[succ]
@@ -653,6 +659,10 @@ func executePhis(fr *frame) []ssa.Instruction {
 		}
 	}
 	nonPhis := fr.block.Instrs[firstNonPhi:]
+	if fr.phisDone {
+		fr.phisDone = false
+		return nonPhis
+	}
 	if firstNonPhi > 0 {
 		phis := fr.block.Instrs[:firstNonPhi]
 		predIndex := slices.Index(fr.block.Preds, fr.prevBlock)
